@@ -18,11 +18,11 @@ COMMON_NOTE = ("Trusted: Coq 8.16.1 kernel (full .vo build, vm_compute, no nativ
 # id -> (technique, level text, extra note, design ref)   -- only properties whose check is built and passes
 CLAIMED = {
     "C08": ("Rocq proof: reading with a reader schema = decode under the writer schema, then the specification's resolution function (field matching by name/alias, defaults, promotions, enum defaults, union rules, errors); the value-level algorithm of the code equals that specification for inline schemas; model vs schemaless_reader / reader(reader_schema=) on composed schema evolutions",
-            "Theorems (coq/props/C08.v, 27): C08_factor_code (all schema pairs, options, layouts: rdec = decode ; rval), C08_factor_zone_partial / _layout_partial (rval = resolve under the computable `agree`), "
+            "Theorems (coq/props/C08.v, 31): C08_factor_code (all schema pairs, options, layouts: rdec = decode ; rval), C08_factor_zone_partial / _layout_partial (rval = resolve under the computable `agree`), "
             "C08_match_is_spec, C08_branch_choice_is_spec, C08_record_guard_consistent, C08_identity (+_code_partial), C08_error_* (no default, not promotable, unknown symbol, fixed size, name mismatch, kind, no branch, items), "
             "C08_enum_default, C08_old_code_refuted_* (8 witnesses on which the code before the repairs left the specification; model/ResolveOld.v). Tie: implementation vs rdec AND vs resolve on "
             "(writer, 1..6 evolution steps, datum) through both reading routes; the hand-written witnesses of every repaired defect stay as regression cases.",
-            "PARTIAL: the zone theorem does not yet cover by-name references and dict-form primitives (decided there by the correspondence against `resolve`). F6, F7, F30, F31 and the earlier C08 defects are repaired in /repo (fix: commits).", "§3 C08"),
+            "PARTIAL: two zone theorems (inline schemas incl. dict-form primitives: C08_factor_zone_partial; by-name references incl. recursive types: C08_factor_zone_refs_partial) cover ~90 % of the generated evaluations; outside them (logicalType annotations on non-primitive types, nested unions, reader options) the statement is decided by the correspondence against `resolve`. F6, F7, F30, F31 and the earlier C08 defects are repaired in /repo (fix: commits).", "§3 C08"),
     "C09": ("Rocq proof about the writer's union branch search as a function: chosen branch conforms, tuple and '-type' hints select exactly the named branch (error when none), first conforming non-record branch, float defers to double, most shared fields first on ties; union indices and named-type reporting vs the model + the statement evaluated on the written index",
             "Theorems (coq/props/C09.v, 13): C09_conforming, C09_function, C09_tuple_hint, C09_type_hint (+_validate), C09_first_nonrecord, C09_float_defers_to_double, C09_double_chosen, "
             "C09_most_fields_first_on_tie, C09_search_spec, C09_no_branch, C09_closure_partial. Tie: union index written by fastavro vs the model's elab on unions of primitive mixes, several "
